@@ -79,6 +79,17 @@ def cases(tier):
                     setup="m = np.array([True, False, True])", assume=dom, check_defined=True))
     cs.append(C("b/divide/where-masked-outside-domain", "out = mg.divide(x, y, where=m, out=o)", [("x", (3,)), ("y", (3,))], carrs=[["o", [3]]],
                 setup="m = np.array([True, False, True])", assume="ne(y[[0, 2]], 0)", check_defined=True))
+    # integer options given as NumPy integers / 0-d integer arrays instead of Python ints
+    for nm, body, shp in (("repeat/int64", "out = mg.repeat(x, np.int64(2))", (3,)), ("repeat/int64-axis", "out = mg.repeat(x, np.int64(2), axis=np.int64(1))", (2, 2)),
+                          ("repeat/0d-array", "out = mg.repeat(x, np.array(2), axis=0)", (2, 2)), ("repeat/uint8", "out = mg.repeat(x, np.uint8(3))", (2,)),
+                          ("repeat/int64-zero", "out = mg.repeat(x, np.int64(0))", (2,)), ("roll/int64", "out = mg.roll(x, np.int64(1), axis=np.int64(0))", (3,)),
+                          ("sum/axis-int64", "out = mg.sum(x, axis=np.int64(0))", (2, 2)), ("getitem/int64", "out = x[np.int64(1)]", (2, 2)),
+                          ("expand_dims/int64", "out = mg.expand_dims(x, np.int64(0))", (2,)), ("swapaxes/int64", "out = mg.swapaxes(x, np.int64(0), np.int64(1))", (2, 3)),
+                          ("cumsum/axis-int64", "out = mg.cumsum(x, axis=np.int64(1))", (2, 2)), ("max/axis-int64", "out = mg.max(x, axis=np.int64(-1))", (2, 2)),
+                          ("var/ddof-int64", "out = mg.var(x, axis=0, ddof=np.int64(1))", (3, 2)), ("moveaxis/int64", "out = mg.moveaxis(x, np.int64(0), np.int64(-1))", (2, 3)),
+                          ("squeeze/int64", "out = mg.squeeze(x[None], axis=np.int64(0))", (2,)), ("concatenate/axis-int64", "out = mg.concatenate([x, x], axis=np.int64(0))", (2,)),
+                          ("stack/axis-int64", "out = mg.stack([x, x], axis=np.int64(1))", (2,)), ("reshape/int64", "out = mg.reshape(x, (np.int64(3), np.int64(2)))", (2, 3))):
+        cs.append(C("npint/" + nm, body, [("x", shp)], assume="distinct(x)" if "max" in nm else None))
     # power special cases
     for e in ("2", "3", "-1", "0.5", "1", "0", "-2", "1.5"):
         cs.append(C("b/power/x**%s" % e, "out = x ** %s" % e, [("x", (2,))]))
